@@ -99,10 +99,15 @@ def shapes():
     return vals
 
 
-def check_family(_):
+SHAPES = ("Scal", "Mixed", "Loose", "Rich")
+
+
+def check_family(only):
     import hdl21 as h
     vals = shapes()
     for P, plist in vals.items():
+        if only in SHAPES and P.__name__ != only:
+            continue
         calls = {"n": 0}
 
         def mk(P=P, calls=calls):
@@ -165,6 +170,24 @@ def check_family(_):
         exported = [m.name for m in pkg.modules]
         if len(set(exported)) != len(exported):
             return ("names.export-collide", f"{P.__name__}: duplicate exported module names", w)
+        # equal parameter values written differently: the name must not depend on which spelling is called first
+        import hdl21 as _h
+        found = {}
+        for i, (p1, m1_) in enumerate(seen):
+            for p2, m2_ in seen[i + 1:]:
+                if p1 == p2 and repr(p1) != repr(p2):
+                    Ga, Gb = mk(), mk()
+                    na = Ga(p1).name
+                    nb = Gb(p2).name
+                    if na != nb:
+                        vals = [getattr(p, f) for p in (p1, p2) for f in p.__params__]
+                        kind = "prefixed" if any(isinstance(v, _h.Prefixed) for v in vals) else "python-numeric-equality"
+                        found.setdefault(kind, (f"names.order-dependent/{kind}",
+                                                f"{P.__name__}: equal parameters {p1!r} / {p2!r} name the module {na!r} or "
+                                                f"{nb!r} depending on which is called first", w))
+        for kind in ("prefixed", "python-numeric-equality"):
+            if kind in found:
+                return found[kind]
         # names depend on the generator and the values only: a second generator object with the same function name
         G2 = mk()
         for pp, mm in seen[:4]:
@@ -203,12 +226,13 @@ def run(ctx):
                         "the field values (not proved)", "builtin calls on opaque values are assumed not to raise",
                         "int / float parameter fields: str() of different numbers differ (not proved: int-to-string "
                         "reasoning is out of reach of both solvers here; covered by the bounded family)"]
-    ctx.run_bounded("param-shapes", ["family"], check_family,
-                    rule="3 param-class shapes (two strings; int/float/optional string; enum + nested param-class + "
+    ctx.run_bounded("param-shapes", list(SHAPES), check_family,
+                    rule="4 param-class shapes (two strings; int/float/optional string; Union/Any typed; enum + nested param-class + "
                          "Scalar + Module/primitive valued) x 7-14 values each incl. strings with spaces and '=', "
                          "None vs 'None', names straddling the 128 limit, 0.1+0.2 vs 0.3, equal Prefixed written "
                          "differently; keyword / instance / nested-generator call forms; memo identity, body count, "
-                         "distinct names, export of a design holding all of them, name stability",
+                         "distinct names, export of a design holding all of them, name stability, name independent of which "
+                         "spelling of equal parameters is called first",
                     bound="33 parameter values", key_of=repr)
     ctx.bounded[-1]["evaluations"] = sum(len(v) for v in shapes().values()) * 4
     ctx.bounded[-1]["distinct_nontrivial"] = sum(len(v) for v in shapes().values())
@@ -222,7 +246,7 @@ def replay(payload):
     if inp.get("case") == "handed-on":
         r = check_handed_on(0)
     elif "case" in inp:
-        r = check_family(0)
+        r = check_family(inp["case"])
     elif "params1" in inp:
         print("replay: see recorded names", inp)
         return 1 if inp.get("name1") == inp.get("name2") else 0
